@@ -2,8 +2,8 @@
    every history of start / stop / process_event / enqueue_event / execute_queued_events the back engine is the
    specification extended by one pending list: every stored occurrence is dispatched exactly once, oldest first, each as
    a complete step, at the end of the next start() / process_event / execute_queued_events. *)
-From Msm Require Import Run Lemmas_C19 Lemmas_Rows Lemmas_Sim Spec Lemmas_Core Lemmas_SpecBack Lemmas_SpecRun Lemmas_Equiv.
-From Coq Require Import Lia.
+From Msm Require Import Run Lemmas_C19 Lemmas_Rows Lemmas_Sim Spec Lemmas_Core Lemmas_Fifo Lemmas_SpecBack Lemmas_SpecMp11 Lemmas_SpecRun Lemmas_Equiv.
+From Coq Require Import Lia ZArith.
 
 Section BackQueue.
 Variable cf : cfg.
@@ -109,7 +109,162 @@ Proof.
   - rewrite Hpol. apply back_family_queue_is_spec; eauto.
 Qed.
 
+(* ---- backmp11: the pool of the outermost machine ---- *)
+Section Mp11Queue.
+Variable cf : cfg.
+Hypothesis Hbe : c_be cf = Mp11.
+Variable parents : list (option nat).
+Hypothesis Hflat : forall e, nth e parents None = None.
+Hypothesis Hresets : mp11_entry_throw_resets = true.
+Variable root : machine.
+Hypothesis Hcore : core root.
+Hypothesis Hnohist : m_hist root = HNone.
+Variable fuel : nat.
+Hypothesis Hmw : (Z.of_nat fuel < MW)%Z.
+
+Theorem mp11_qrun_ops : forall l rn pend started, qbracketed started l -> quietm pend root rn -> running rn = started ->
+  Forall (fun e => e_ty e <> EV_NONE) pend -> 2 * (length pend + count_enq l) + depth root + 3 <= fuel ->
+  Forall2 step_ok (sp_qrun_mp11 (c_pol cf) root (abs rn, pend) l) (run_ops cf root (build cf parents false root) fuel rn l).
+Proof.
+  induction l as [|o t IH]; intros rn pend started Hb Hq Hrun Hu Hf; cbn [sp_qrun_mp11 run_ops]; [constructor|].
+  cbn [qbracketed] in Hb.
+  destruct o as [val plan|plan|e val plan|e|val plan| | | | | | |]; try contradiction; cbn [sp_qop_mp11 run_op count_enq] in *.
+  - (* start *)
+    destruct plan; [|contradiction]. destruct started; [contradiction|]. rewrite abs_act.
+    destruct (sim_run_m' _ rn val _ (mp11_start_q cf Hbe parents Hflat val Hresets root Hcore Hnohist pend fuel rn Hq Hrun ltac:(lia)))
+      as (rn' & items & E & Hok' & Hr' & Hs).
+    rewrite E. rewrite <- Hs. cbn [fst]. constructor.
+    + unfold step_ok. cbn [fst snd]. split; [apply snapshot_abs | reflexivity].
+    + apply (IH rn' [] true); [exact Hb | apply quietm_nil; exact Hok' | exact Hr' | constructor | cbn [length]; lia].
+  - (* stop *)
+    destruct plan; [|contradiction]. destruct started; [|contradiction].
+    destruct (sim_run_m' _ rn [] _ (mp11_stop_q cf Hbe parents Hflat [] Hresets root Hcore pend fuel rn Hq Hrun))
+      as (rn' & items & E & Hq' & Hr' & Hs).
+    rewrite E. rewrite <- Hs. cbn [fst]. constructor.
+    + unfold step_ok. cbn [fst snd]. split; [apply snapshot_abs | reflexivity].
+    + apply (IH rn' pend false); [exact Hb | exact Hq' | exact Hr' | exact Hu | lia].
+  - (* process_event *)
+    destruct plan; [|contradiction]. destruct started; [|contradiction]. destruct Hb as (He & Hb).
+    pose proof (mp11_process_event_q cf Hbe parents Hflat val Hresets root Hcore pend fuel e rn Hq Hrun ltac:(lia) ltac:(lia) Hmw He Hu) as Hs.
+    destruct (Hs (Glob [] 0 [] val [] 0)) as (code & rn' & items & E & Hok' & Hr' & Hres).
+    { repeat split. }
+    unfold run_m, bind, direct_code. rewrite Hbe. rewrite E. cbn. rewrite app_nil_r. cbn zeta in Hres.
+    destruct (sp_drain (c_pol cf) root val pend (o_conf (sp_process (c_pol cf) root e val (abs rn)))) as [i c'].
+    destruct Hres as (-> & Ha & Hc). cbn [fst]. constructor.
+    + unfold step_ok. cbn [fst snd]. split; [rewrite snapshot_abs, Ha; reflexivity|]. exists code. auto.
+    + rewrite <- Ha. apply (IH rn' [] true); [exact Hb | apply quietm_nil; exact Hok' | exact Hr' | constructor | cbn [length]; lia].
+  - (* enqueue_event *)
+    destruct Hb as (He & Hb).
+    destruct (sim_run_m' _ rn [] _ (mp11_enqueue_q cf Hbe parents [] root pend e rn Hq)) as (rn' & items & E & Hq' & Hr' & -> & Ha).
+    rewrite E. cbn [fst rev]. constructor.
+    + unfold step_ok. cbn [fst snd]. split; [rewrite snapshot_abs, Ha; reflexivity | reflexivity].
+    + rewrite <- Ha. apply (IH rn' (pend ++ [e]) started); [exact Hb | exact Hq' | congruence | apply Forall_app; split; [exact Hu | constructor; [exact He | constructor]] |].
+      rewrite app_length. cbn [length]. lia.
+  - (* execute_queued_events *)
+    destruct plan; [|contradiction]. destruct started; [|contradiction].
+    destruct (sim_run_m' _ rn val _ (mp11_drain_q cf Hbe parents Hflat val Hresets root Hcore pend fuel rn Hq Hrun ltac:(lia) ltac:(lia) Hmw Hu))
+      as (rn' & items & E & Hok' & Hr' & Hs).
+    rewrite E. destruct (sp_drain (c_pol cf) root val pend (abs rn)) as [i c']. inversion Hs; subst. cbn [fst]. constructor.
+    + unfold step_ok. cbn [fst snd]. split; [rewrite snapshot_abs; reflexivity | reflexivity].
+    + apply (IH rn' [] true); [exact Hb | apply quietm_nil; exact Hok' | exact Hr' | constructor | cbn [length]; lia].
+Qed.
+End Mp11Queue.
+
+Theorem mp11_queue_is_spec : forall cf md l,
+  c_be cf = Mp11 -> flat_events md -> core (md_root md) -> m_hist (md_root md) = HNone -> mp11_entry_throw_resets = true ->
+  qbracketed false l -> 2 * count_enq l + depth (md_root md) + 3 <= default_fuel ->
+  Forall2 step_ok (sp_qrun_mp11 (c_pol cf) (md_root md) (abs (init_rnode (md_root md)), []) l) (run cf md l).
+Proof.
+  intros cf md l HB Hflat Hcore Hh Hres Hb Hf. unfold run.
+  apply (mp11_qrun_ops cf HB (md_parents md) Hflat Hres (md_root md) Hcore Hh default_fuel ltac:(reflexivity) l (init_rnode (md_root md)) [] false Hb).
+  - apply quietm_nil. apply okm_init.
+  - destruct (md_root md); reflexivity.
+  - constructor.
+  - cbn [length]. lia.
+Qed.
+
+(* ---- the back family and backmp11 side by side on histories with stored events ---- *)
+(* histories on which the two readings coincide: start() and stop() alternate, events are sent and stored while the
+   machine is started, and nothing is pending when the machine is stopped (`pending`: something may be stored) *)
+Fixpoint qlive (started pending:bool) (l:list op) : Prop :=
+  match l with
+  | [] => True
+  | o :: t =>
+      match o, started with
+      | OStart _ [], false => pending = false /\ qlive true false t
+      | OStop [], true => pending = false /\ qlive false false t
+      | OProcess e _ [], true => e_ty e <> EV_NONE /\ qlive true false t
+      | OEnqueue e, true => e_ty e <> EV_NONE /\ qlive true true t
+      | ODrain _ [], true => qlive true false t
+      | _, _ => False
+      end
+  end.
+
+Lemma qlive_bracketed : forall l s p, qlive s p l -> qbracketed s l.
+Proof.
+  induction l as [|o t IH]; intros s p H; [exact I|]. cbn [qlive qbracketed] in *.
+  destruct o as [val plan|plan|e val plan|e|val plan| | | | | | |]; try contradiction.
+  - destruct plan; [|contradiction]. destruct s; [contradiction|]. destruct H as (_ & H). eapply IH; eauto.
+  - destruct plan; [|contradiction]. destruct s; [|contradiction]. destruct H as (_ & H). eapply IH; eauto.
+  - destruct plan; [|contradiction]. destruct s; [|contradiction]. destruct H as (He & H). split; [exact He | eapply IH; eauto].
+  - destruct s; [|contradiction]. destruct H as (He & H). split; [exact He | eapply IH; eauto].
+  - destruct plan; [|contradiction]. destruct s; [|contradiction]. eapply IH; eauto.
+Qed.
+Lemma qlive_plain : forall l s p, qlive s p l -> Forall qplain_op l.
+Proof.
+  induction l as [|o t IH]; intros s p H; [constructor|]. cbn [qlive] in H.
+  destruct o as [val plan|plan|e val plan|e|val plan| | | | | | |]; try contradiction.
+  - destruct plan; [|contradiction]. destruct s; [contradiction|]. destruct H as (_ & H). constructor; [exact I | eapply IH; eauto].
+  - destruct plan; [|contradiction]. destruct s; [|contradiction]. destruct H as (_ & H). constructor; [exact I | eapply IH; eauto].
+  - destruct plan; [|contradiction]. destruct s; [|contradiction]. destruct H as (He & H). constructor; [exact He | eapply IH; eauto].
+  - destruct s; [|contradiction]. destruct H as (He & H). constructor; [exact He | eapply IH; eauto].
+  - destruct plan; [|contradiction]. destruct s; [|contradiction]. constructor; [exact I | eapply IH; eauto].
+Qed.
+
+Lemma sp_qrun_same pol mc : forall l c pend s p, qlive s p l -> (p = false -> pend = []) ->
+  Forall2 same_spec (sp_qrun pol mc (c, pend) l) (sp_qrun_mp11 pol mc (c, pend) l).
+Proof.
+  induction l as [|o t IH]; intros c pend s p H Hp; cbn [sp_qrun sp_qrun_mp11]; [constructor|]. cbn [qlive] in H.
+  destruct o as [val plan|plan|e val plan|e|val plan| | | | | | |]; try contradiction; cbn [sp_qop sp_qop_mp11].
+  - destruct plan; [|contradiction]. destruct s; [contradiction|]. destruct H as (-> & H). rewrite (Hp eq_refl). cbn [sp_drain].
+    unfold sp_start, sp_start_obs. destruct (sp_enter mc (Evt EV_INIT 0) (c_set_act c (m_inits mc))) as [items cc]. cbn [fst].
+    constructor; [|eapply IH; eauto].
+    unfold same_spec. cbn [fst snd]. split; [reflexivity|]. split; [reflexivity|]. right. split; [reflexivity|].
+    cbn [app]. rewrite !rev_app_distr. cbn [rev app]. eauto 10.
+  - destruct plan; [|contradiction]. destruct s; [|contradiction]. destruct H as (-> & H).
+    destruct (sp_stop mc c) as [i c']. cbn [fst]. constructor; [|eapply IH; eauto].
+    unfold same_spec. cbn [fst snd]. auto.
+  - destruct plan; [|contradiction]. destruct s; [|contradiction]. destruct H as (He & H).
+    destruct (sp_drain pol mc val pend (o_conf (sp_process pol mc e val c))) as [i c']. cbn [fst]. constructor; [|eapply IH; eauto].
+    unfold same_spec. cbn [fst snd]. auto.
+  - destruct s; [|contradiction]. destruct H as (He & H). cbn [fst]. constructor; [|eapply IH; eauto; discriminate].
+    unfold same_spec. cbn [fst snd]. auto.
+  - destruct plan; [|contradiction]. destruct s; [|contradiction].
+    destruct (sp_drain pol mc val pend c) as [i c']. cbn [fst]. constructor; [|eapply IH; eauto].
+    unfold same_spec. cbn [fst snd]. auto.
+Qed.
+
+(* back / back11 and backmp11, the same switch policy: on these histories every stored occurrence is dispatched by both
+   at the same point, with the same behaviour invocations, arguments and configurations *)
+Theorem back_family_mp11_same_queue_behaviour : forall cfB cfM md l,
+  back_family cfB md -> c_be cfM = Mp11 -> c_pol cfB = c_pol cfM -> flat_events md -> core (md_root md) ->
+  m_hist (md_root md) = HNone -> back_start_queues = true -> mp11_entry_throw_resets = true ->
+  qlive false false l -> 2 * count_enq l + depth (md_root md) + 3 <= default_fuel ->
+  Forall2 same_step (run cfB md l) (run cfM md l).
+Proof.
+  intros cfB cfM md l HB HM Hpol Hflat Hcore Hh Hq Hr Hl Hf.
+  eapply Forall2_same.
+  - eapply (sp_qrun_same (c_pol cfB) (md_root md) l _ [] false false Hl). reflexivity.
+  - apply back_family_queue_is_spec; eauto; [eapply qlive_plain; eauto | lia].
+  - rewrite Hpol. apply mp11_queue_is_spec; eauto. eapply qlive_bracketed; eauto.
+Qed.
+
 (* a history inside the hypotheses, on the nested example definition *)
 Definition ex_queue_ops : list op :=
   [OEnqueue (Evt 4 1); OStart [] []; OEnqueue (Evt 6 2); OEnqueue (Evt 5 3); OProcess (Evt 6 4) [10] []; OEnqueue (Evt 4 5);
    ODrain [3] []; OStop []; OEnqueue (Evt 4 6); OStart [1] []].
+
+(* a history backmp11 is specified on (start / stop alternate), with events stored while stopped and while started *)
+Definition ex_queue_ops_mp11 : list op :=
+  [OEnqueue (Evt 4 1); OStart [] []; OEnqueue (Evt 4 2); OEnqueue (Evt 5 3); OProcess (Evt 6 4) [10] []; OEnqueue (Evt 6 5);
+   ODrain [4] []; OStop []; OEnqueue (Evt 4 6); OStart [1] []; OEnqueue (Evt 4 7); ODrain [1] []].
